@@ -155,6 +155,14 @@ func (rs *RecordSet) ReadFrom(r io.Reader) (int64, error) {
 		return 4, nil
 	}
 
+	if limit != 4 && int(size) > d.remain {
+		// The record set cannot extend past the end of the message that
+		// contains it.
+		err := fmt.Errorf("record set of %d bytes with %d bytes remaining in the message: %w", size, d.remain, io.ErrUnexpectedEOF)
+		d.setError(err)
+		return 4, err
+	}
+
 	stream := &RecordStream{
 		Records: make([]RecordReader, 0, 4),
 	}
